@@ -494,6 +494,11 @@ Definition entry_eqb (a b : entry tc) : bool :=
   && String.eqb (l_date tc (e_log tc a)) (l_date tc (e_log tc b))
   && String.eqb (l_ik tc (e_log tc a)) (l_ik tc (e_log tc b))
   && Z.eqb (e_id tc a) (e_id tc b) && opt_eqb String.eqb (e_hash tc a) (e_hash tc b).
+(* constructors at the text codec, for the cases written by the harness *)
+Definition mk_tx (ps : list posting) (m : meta) (ts rf : string) (id : Z) (rv : bool) : tx tc :=
+  {| t_postings := ps; t_meta := m; t_time := ts : T tc; t_ref := rf; t_id := id; t_reverted := rv |}.
+Definition mk_entry (p : payload tc) (d ik : string) (id : Z) (h : option string) : entry tc :=
+  {| e_log := {| l_payload := p; l_date := d : T tc; l_ik := ik |}; e_id := id; e_hash := h : option (Hs tc) |}.
 Definition res_eqb {A} (eqb : A -> A -> bool) (a b : res A) : bool :=
   match a, b with Ok x, Ok y => eqb x y | Err, Err => true | Panic, Panic => true | _, _ => false end.
 
